@@ -296,7 +296,7 @@ let run_case (x : sx) : Stdlib.String.t =
                     | L (A "4" :: inner) -> RRec (plain inner)
                     | L l -> RPlain (plain l)
                     | _ -> failwith "bad step" in
-                  let is_filter = function L (A "7" :: _) | L (A "8" :: _) | L (A "9" :: _) | L (A "10" :: _) | L (A "11" :: _) | L (A "12" :: _) | L (A "13" :: _) -> true | _ -> false in
+                  let is_filter = function L (A "7" :: _) | L (A "8" :: _) | L (A "9" :: _) | L (A "10" :: _) | L (A "11" :: _) | L (A "12" :: _) | L (A "13" :: _) | L (A "14" :: _) -> true | _ -> false in
                   let op_of = function "0" -> OEq | "1" -> ONe | "2" -> OLt | "3" -> OLe | "4" -> OGt | "5" -> OGe | _ -> failwith "bad operator" in
                   let rec fstep_of = function
                     | L [A "11"; inner] -> FR (fstep_of inner)
@@ -327,6 +327,19 @@ let run_case (x : sx) : Stdlib.String.t =
                           | _ -> failwith "bad basic query" in
                         FQ (List.map (function L bs -> List.map bq_of bs | _ -> failwith "bad conjunction") conjs)
                     | L (A "8" :: L inner :: A o :: lit) -> FC (List.map rstep_of inner, op_of o, cp lit)
+                    | L (A "14" :: A g0 :: conjs) ->
+                        (* a query in disjunctive form with blanks: every conjunction (gap elem...), every elem (gap e neg gn trail inner...) | (gap c (inner) a o b trail lit...) *)
+                        let nat s = nat_of_int (int_of_string s) in
+                        let elem_of = function
+                          | L (A g :: A "e" :: A neg :: A gn :: A trail :: inner) -> (nat g, (SBE (neg = "1", nat gn, List.map rstep_of inner), nat trail))
+                          | L (A g :: A "c" :: L inner :: A a :: A o :: A b :: A trail :: lit) -> (nat g, (SBC (List.map rstep_of inner, nat a, op_of o, nat b, cp lit), nat trail))
+                          | _ -> failwith "bad spaced basic query" in
+                        let conj_of = function
+                          | L (A g :: e0 :: es) -> (nat g, ((snd (elem_of e0)), List.map elem_of es))
+                          | _ -> failwith "bad spaced conjunction" in
+                        (match List.map conj_of conjs with
+                         | (_, c0) :: cs -> FQS (nat g0, (c0, cs))
+                         | [] -> failwith "empty spaced query")
                     | x -> FS (rstep_of x) in
                   let fs = List.map fstep_of steps in
                   let ks = if List.exists is_filter steps then [] else List.map rstep_of steps in
